@@ -18,7 +18,7 @@ LEVEL_NOTE = ("Trusted: Lean kernel (propext/Classical.choice/Quot.sound), the a
               "numpy / comprehensions over the country row are an explicit allow-list (3): family, flags and written keys are modelled, values are opaque.")
 TECHNIQUE = "translator (source -> Lean tables) + Lean 4 state-machine induction and decide over the tables + differential correspondence"
 DRIVER = "driver_scenario"
-LEAN_MODULES = ["AllfedModel.Props.C13"]
+LEAN_MODULES = ["AllfedModel.Props.C13", "AllfedModel.Props.C13Spec"]
 TRANSLATORS = [tr_scenarios.run]
 OBLIGATIONS = ["Allfed.C13." + n for n in [
     "C13_exactly_once", "C13_exactly_once_sound", "C13_exactly_once_complete", "C13_flags_of_run", "C13_twice_rejected", "C13_never_flag_error_when_once",
@@ -438,7 +438,45 @@ def part_sequences(ctx, E):
     for (ops, row, tag), o in zip(cases, outs):
         check_seq(ctx, E, ops, row, o, tag, fam_real)
         ctx.count("seqkind:" + tag)
+    part_spec(ctx, E, prefixes, rows, [c for c in cases if c[2] != "pair"])
     return tab, fam_real
+
+
+def part_spec(ctx, E, prefixes, rows, long_cases):
+    """the executable statement of `sets exactly the constants its documentation describes`: the hand-written specification
+    rows (Model/ScenarioSpec.lean) are run as setters by the driver and compared with what the REAL setters leave behind"""
+    rng = ctx.rng
+    spec_names = Reader(ctx.lean(["scen.specnames"])[0]).strs()
+    cases = []
+    for nm in spec_names:
+        if nm not in E.setters:
+            continue
+        for pre in prefixes:
+            if nm.startswith("init_"):
+                pre = []
+            cases.append((pre + [("c", nm)], rng.choice(rows), nm))
+            if nm.startswith("init_"):
+                break
+    cases += [(ops, row, None) for ops, row, _ in long_cases]
+    outs = ctx.lean([seq_line(E, ops, row).replace("scen.seq ", "scen.seqspec ", 1) for ops, row, _ in cases])
+    for (ops, row, nm), o in zip(cases, outs):
+        with ctx.quiet():
+            real = real_call_seq(E, ops, row)
+        if real[0] != "ok":
+            continue
+        case = {"ops": [list(map(str, x)) for x in ops], "country": None if row is None else row["iso3"]}
+        m = read_result(Reader(o))
+        if m[0] != "ok":
+            ctx.violation("setter-deviates-from-documentation", "the real setters accept this call sequence, the documented behaviour (specification rows "
+                          "executed as setters) rejects it: %s" % o[:120], case)
+            continue
+        bad = diff_store(ctx, m[4], flatten(real[2], real[3]))
+        if bad or real_flags(real[1]) != m[1]:
+            p, iv, mv = bad[0] if bad else ("<flags>", sorted(real_flags(real[1])), sorted(m[1]))
+            ctx.violation("setter-deviates-from-documentation", "after %s the real code has %s = %r, the documentation says %r"
+                          % (nm or [x[1] for x in ops if x[0] == "c"][-3:], p, iv, mv), dict(case, key=p))
+        ctx.count("spec-executed")
+        ctx.case(("spec", tuple(map(tuple, case["ops"])), case["country"]))
 
 
 # ---------------------------------------------------------------------------------------------------------------------
